@@ -85,6 +85,48 @@ SHORT.update({
     "C20-3": "the two spawn goroutines share one batch-size variable",
     "C20-4": "one timer per worker, armed at start-up: the first request after a long idle period is timed out at once",
 })
+SHORT.update({
+    "C01-5": "且 / 或 return the right operand without checking that it is a boolean",
+    "C01-6": "zero-divisor guard of `/` and `|` replaced by a non-finite-quotient check (1e308 / 1e-300 is an error, x / 0 of NaN is not)",
+    "C02-5": "indentation check of 再如/否则 removed: the arm binds to the innermost 如果",
+    "C02-6": "每当 condition evaluated once more after a 输出 in the body",
+    "C03-5": "CR admitted as white space: CR-only line ends are lost",
+    "C03-6": "a block that consists of an 输入 line only is accepted (empty body)",
+    "C04-5": "`%` terminates an identifier",
+    "C04-6": "operator follow-set test replaced by 'not an identifier character' (operators at end of text, before punctuation)",
+    "C05-5": "`Lexer.Next` no longer clamped: cursor = length + 1 after an unterminated escape",
+    "C05-6": "error printer cuts the quoted line at VT / FF / U+0085 / U+2028 / U+2029",
+    "C06-5": "a block opens a scope only if it contains a 令: 得到 names leak out",
+    "C06-6": "redeclaration check from the block start, not restored after a nested block",
+    "C07-5": "two-name loop variable (key, value) not copied",
+    "C07-6": "constant list literals memoised on their syntax node",
+    "C08-5": "a method calling a method of its own object (以此) runs it in the caller's frame: its 输出 ends the caller",
+    "C08-6": "新建 without arguments skips the constructor (and its arity check)",
+    "C09-5": "built-in faults that cross a call boundary are no longer catchable",
+    "C09-6": "a custom exception leaving a method becomes the built-in 异常",
+    "C10-5": "读取 returns a nil element for an absent last key",
+    "C10-6": "交换 with a NaN index panics",
+    "C11-5": "JSON objects inside arrays decoded through Go maps: key order from map iteration",
+    "C11-6": "type labels in an error message listed in map iteration order",
+    "C12-5": "包含 misses the first element",
+    "C12-6": "所有索引 cached, stale after 移除",
+    "C13-5": "two adjacent back-ticks: the second one re-opens an escape",
+    "C13-6": "quotes matched by pair class: “ closes at 」",
+    "C14-5": "长度 / 字数 skip combining marks",
+    "C14-6": "digits after E / % in a directive accepted",
+    "C15-5": "program-level scope: the names a module imported are popped when its body has run",
+    "C15-6": "`ParseLibName` memoised: the second run cannot find the module",
+    "C16-5": "input-variable texts evaluated with the process-wide predefined values",
+    "C16-6": "取随机数 uses one unsynchronised random source (data race)",
+    "C17-5": "LoadFile reads through ByteStream: leading BOM not removed",
+    "C17-6": "valid U+FFFD (EF BF BD) rejected",
+    "C18-5": "indentation errors are reported for the previous line",
+    "C18-6": "a handler that ends with 输出 leaves its frame: later reports show stale frames",
+    "C19-5": "empty containers generated as `]` / `}`",
+    "C19-6": "JSON syntax errors of 解析JSON are not catchable",
+    "C20-5": "`:=` shadows the clamped worker maximum",
+    "C20-6": "the master's keep-alive pipe end is closed early: the master exits with its last worker",
+})
 FIRST = {  # own check, first round (before strengthening): rc as observed on 2026-09-23
     "C01": 0, "C01-2": 0, "C02": 1, "C02-2": 0, "C03": 0, "C03-2": 0, "C04": 1, "C04-2": 2, "C05": 0, "C05-2": 1, "C06": 0, "C06-2": 0, "C07": 1, "C07-2": 0,
     "C08": 0, "C08-2": 0, "C09": 0, "C09-2": 1, "C10": 1, "C10-2": 0, "C11": 2, "C11-2": 0, "C12": 0, "C12-2": 0, "C13": 0, "C13-2": 0, "C14": 1, "C14-2": 0,
@@ -93,6 +135,10 @@ FIRST = {  # own check, first round (before strengthening): rc as observed on 20
 w2 = json.load(open(os.path.join(V, "seeded", "wave2_first_pass.json")))
 for k, v in w2.items():
     FIRST[k] = list(v.values())[0]
+w3p = os.path.join(V, "seeded", "wave3_first_pass.json")
+if os.path.exists(w3p):
+    for k, v in json.load(open(w3p)).items():
+        FIRST[k] = list(v.values())[0]
 res = json.load(open(os.path.join(V, "seeded", "RESULTS.json")))
 word = {0: "missed", 1: "caught", 2: "no verdict"}
 print("| seed | change (file) | first round | now | first signature of the deciding check |")
